@@ -35,8 +35,12 @@ def standard(ctx, mod, prefixes, rule):
     tot, dist, fails, samples, stats = run_dec_search(ctx, prefixes)
     corr = []
     if subs:
-        corr, sfails, stot, sdist, ssamples, skinds, drv_ok = V.run_corr_runs(ctx, lib, [(s, r) for s in subs for r in s.corr_runs(ctx)])
+        pairs = [(s, r) for s in subs for r in s.corr_runs(ctx)]
+        corr, sfails, stot, sdist, ssamples, skinds, drv_ok = V.run_corr_runs(ctx, lib, pairs)
         proof_ok = proof_ok and drv_ok
+        # a sub-check shared by several properties (FILTER_BY_PARENT = True) tags its '!' lines with the property they concern
+        shared = {r["tag"] for (s, r) in pairs if getattr(s, "FILTER_BY_PARENT", False)}
+        sfails = [f for f in sfails if f[0] not in shared or any(f[2].startswith("! " + p) for p in prefixes)]
         fails += sfails; tot += stot; dist += sdist; samples = (samples + ssamples)[:14]
         ctx.cov["kinds"] = skinds
         ctx.cov["disagreements"] = sum(len(m) for (_, _, m, _) in corr)
